@@ -65,7 +65,7 @@ FinalEv == /\ Ev.e = "final" /\ \A p \in Procs : pend[p] = Idle
            /\ st' = st /\ pend' = pend /\ i' = i + 1
 
 \* operation-level events (storage calls seen by the gate wrapper) carry no obligation here
-OpEv == Ev.e = "op" /\ UNCHANGED <<st, pend>> /\ i' = i + 1
+OpEv == Ev.e \in {"op", "metrics"} /\ UNCHANGED <<st, pend>> /\ i' = i + 1     \* (metrics: judged by Trace_Hist)
 
 Next == i <= Len(Trace) /\ (ResetEv \/ InvokeEv \/ ReturnEv \/ FinalEv \/ OpEv \/ \E p \in Procs : Linearize(p))
 Spec == Init /\ [][Next]_tvars
